@@ -320,6 +320,8 @@ def style_opts(rng, op):
                 o[k] = rng.choice(vals)
         o["node_by"] = rng.choice(["", "depth", "leaf", "attr", "all"])
         o["edge_by"] = rng.choice(["", "depth", "attr", "all"])
+        if rng.random() < 0.5:
+            o["from"] = rng.randrange(1, 40)       # the node handed to tree_to_dot (mod the number of nodes)
     else:
         if rng.random() < 0.3:
             o["rankdir"] = rng.choice(["TB", "BT", "LR", "RL"])
@@ -373,7 +375,8 @@ def _dot(nodes, opts=None):
         kw["edge_attr"] = "d_edge"
     elif eb:
         kw["edge_attr"] = lambda n: ({"label": "w", "penwidth": 2} if (eb == "all" or n.depth % 2) else {})
-    g = bigtree.tree_to_dot(nodes[0], **kw)
+    # tree_to_dot may be handed ANY node of the tree: it always draws the whole tree (from the root)
+    g = bigtree.tree_to_dot(nodes[o.get("from", 0) % len(nodes)], **kw)
     vs = [(n.get_name(), n.get("label")) for n in g.get_nodes()]
     es = [(e.get_source(), e.get_destination()) for e in g.get_edges()]
     return vs, es
